@@ -3,6 +3,9 @@
 (* Trace monitor for C10.  trace.ndjson is the step stream hook H6 records *)
 (* while the real interpreter runs programs (harness/cmd/c10):             *)
 (*   Begin  - a program starts: code, call data                            *)
+(*   Enter / Exit - a callee frame (CALL family, CREATE) starts with its    *)
+(*            code and input / ends; callee frames are judged like the     *)
+(*            outermost one, each from the initial machine state           *)
 (*   Step   - an instruction completed: the stack (top first), memory and  *)
 (*            return data as the interpreter left them, the pc of the next *)
 (*            instruction of the frame (or -1 and how the frame ended)     *)
@@ -24,8 +27,11 @@ EXTENDS Evm, Json, TLC
 Trace == ndJsonDeserialize("trace.ndjson")
 NoDatas == {<<>>}
 
-VARIABLES l, bad, live
-tvars == <<vars, l, bad, live>>
+VARIABLES l, bad, live,
+          fstack,                \* suspended caller frames: <<code, data, st, live>>, outermost first
+          dead                   \* recording of this run stopped (StepBound): nothing more is judged
+tvars == <<vars, l, bad, live, fstack, dead>>
+CurDepth == Len(fstack) + 1
 
 OpName(op) ==
   CASE op = 1 -> "ADD" [] op = 2 -> "MUL" [] op = 3 -> "SUB" [] op = 4 -> "DIV" [] op = 5 -> "SDIV"
@@ -79,8 +85,8 @@ JudgeFault(e) ==
       r  == Exec(code, data, st, LAMBDA bs : <<>>)
       need == IF Defined(op) /\ Len(st.stack) >= Pops(op) THEN MemNeed(op, st.stack) ELSE 0
   IN Tag(e.pc = st.pc /\ OpAt(code, st.pc) = op, "Proj.chain") \o
-     IF e.err \in {"oog", "gasoverflow"} THEN Tag(need > MemFloor, "Inv.fault-unjustified-oog:" \o nm)
-     ELSE IF ~Defined(op) THEN <<>>          \* outside the computational set: not judged
+     IF ~Defined(op) THEN <<>>               \* outside the computational set (CALL family, CREATE ...): not judged
+     ELSE IF e.err \in {"oog", "gasoverflow"} THEN Tag(need > MemFloor, "Inv.fault-unjustified-oog:" \o nm)
      ELSE IF r.kind # "fault" THEN <<"Inv.fault-unjustified-" \o e.err \o ":" \o nm>>
      ELSE Tag(r.how = e.err, "Inv.fault-class:" \o nm)
 
@@ -96,8 +102,8 @@ JudgeVector(e) ==
   Tag(Binary(e.op, e.y, e.x) = e.expected, "Ref.vector:" \o OpName(e.op))
 
 Judge(e) ==
-  CASE e.event = "Step" /\ e.depth = 1 /\ live  -> JudgeStep(e)
-    [] e.event = "Fault" /\ e.depth = 1 /\ live -> JudgeFault(e)
+  CASE e.event = "Step" /\ e.depth = CurDepth /\ live /\ ~dead  -> JudgeStep(e)
+    [] e.event = "Fault" /\ e.depth = CurDepth /\ live /\ ~dead -> JudgeFault(e)
     [] e.event = "Final"  -> JudgeFinal(e)
     [] e.event = "Vector" -> JudgeVector(e)
     (* the program is still running after far more steps than any generated program takes under the reference *)
@@ -105,11 +111,11 @@ Judge(e) ==
     (* generator produced a long program (conformance); a deviation that made the program run on was judged   *)
     (* at its step.                                                                                            *)
     [] e.event = "StepBound" -> <<"Ref.step-bound-exceeded">>
-    [] e.event \in {"Begin", "End", "Step", "Fault"} -> <<>>
+    [] e.event \in {"Begin", "End", "Step", "Fault", "Enter", "Exit"} -> <<>>
     [] OTHER -> <<"Proj.unknown-event">>
 
 TraceInit == /\ code = <<>> /\ data = <<>> /\ st = InitState /\ status = "run" /\ jumped = FALSE /\ ret = <<>>
-             /\ l = 1 /\ bad = <<>> /\ live = FALSE
+             /\ l = 1 /\ bad = <<>> /\ live = FALSE /\ fstack = <<>> /\ dead = FALSE
 
 TraceNext ==
   /\ l <= Len(Trace)
@@ -119,15 +125,27 @@ TraceNext ==
      IN /\ bad' = bad \o [i \in 1..Len(j) |-> <<l, e.event, j[i]>>]
         /\ CASE e.event = "Begin" ->
                   /\ code' = e.code /\ data' = e.data /\ st' = InitState /\ live' = TRUE
-             [] e.event = "Step" /\ e.depth = 1 /\ live ->
+                  /\ fstack' = <<>> /\ dead' = FALSE
+             (* a callee frame (CALL family, CREATE): the caller is suspended, the callee starts from the initial  *)
+             (* machine state with its own code and input                                                          *)
+             [] e.event = "Enter" /\ e.depth = CurDepth + 1 ->
+                  /\ fstack' = Append(fstack, [code |-> code, data |-> data, st |-> st, live |-> live])
+                  /\ code' = e.code /\ data' = e.data /\ st' = InitState /\ live' = TRUE
+                  /\ UNCHANGED dead
+             [] e.event = "Exit" /\ e.depth = CurDepth /\ fstack # <<>> ->
+                  /\ code' = fstack[Len(fstack)].code /\ data' = fstack[Len(fstack)].data
+                  /\ st' = fstack[Len(fstack)].st /\ live' = fstack[Len(fstack)].live
+                  /\ fstack' = SubSeq(fstack, 1, Len(fstack) - 1)
+                  /\ UNCHANGED dead
+             [] e.event = "Step" /\ e.depth = CurDepth /\ live ->
                   /\ st' = [pc |-> e.npc, stack |-> e.stack, mem |-> ObsMem(e), rd |-> ObsRd(e)]
                   /\ live' = (e.npc >= 0)
-                  /\ UNCHANGED <<code, data>>
+                  /\ UNCHANGED <<code, data, fstack, dead>>
              [] e.event = "StepBound" ->
-                  /\ live' = FALSE /\ UNCHANGED <<code, data, st>>
-             [] e.event \in {"Fault", "End"} /\ e.depth = 1 ->
-                  /\ live' = FALSE /\ UNCHANGED <<code, data, st>>
-             [] OTHER -> UNCHANGED <<code, data, st, live>>
+                  /\ dead' = TRUE /\ UNCHANGED <<code, data, st, live, fstack>>
+             [] e.event = "Fault" /\ e.depth = CurDepth ->
+                  /\ live' = FALSE /\ UNCHANGED <<code, data, st, fstack, dead>>
+             [] OTHER -> UNCHANGED <<code, data, st, live, fstack, dead>>
         /\ UNCHANGED <<status, jumped, ret>>
 
 TraceSpec == TraceInit /\ [][TraceNext]_tvars
